@@ -261,6 +261,7 @@ func frReplay(c *frCase, dir string, caseNo int) Verdict {
 		}
 	}
 	written := map[string]bool{}
+	datas := map[string]string{}
 	for i := range c.Files {
 		p := inputPath[i]
 		if written[p] {
@@ -271,6 +272,7 @@ func frReplay(c *frCase, dir string, caseNo int) Verdict {
 		if i < len(texts) {
 			data = render(texts[i])
 		}
+		datas[p] = data
 		if err := os.WriteFile(p, []byte(data), 0o644); err != nil {
 			return fail("harness", "%v", err)
 		}
@@ -353,6 +355,16 @@ func frReplay(c *frCase, dir string, caseNo int) Verdict {
 		}
 		return Verdict{OK: false, Signature: "missing-record", Detail: fmt.Sprintf("got %d records, want %d", idx, len(flat)), Concrete: concrete.String()}
 	}
+	// A reader reset in the middle of an input (after the k-th record, possibly between two
+	// records of one line) behaves for the next input exactly like a reader that read the same
+	// lines to the end: records are a function of the lines parsed, not of what the caller had
+	// already fetched.
+	if len(texts) >= 2 && len(texts[0]) > 0 {
+		d0, d1 := datas[inputPath[0]], datas[inputPath[1]]
+		if v := frAbandonCheck(d0, d1); !v.OK {
+			return v
+		}
+	}
 	// unit metadata accumulated across files
 	// ClonesFrozen
 	for i, k := range clones {
@@ -376,4 +388,65 @@ func inputLabel(in frInput, path, base string, n int) string {
 		l += fmt.Sprintf("#%d", n-1)
 	}
 	return l
+}
+
+// frDumpRec renders a record with everything a caller can see.
+func frDumpRec(rec benchfmt.Record) string {
+	f, l := rec.Pos()
+	switch rec := rec.(type) {
+	case *benchfmt.Result:
+		var sb strings.Builder
+		fmt.Fprintf(&sb, "result %s:%d %s %d", f, l, rec.Name, rec.Iters)
+		for _, v := range rec.Values {
+			fmt.Fprintf(&sb, " [%v %s %v %s]", v.Value, v.Unit, v.OrigValue, v.OrigUnit)
+		}
+		for _, c := range rec.Config {
+			fmt.Fprintf(&sb, " {%s=%q %v}", c.Key, c.Value, c.File)
+		}
+		return sb.String()
+	case *benchfmt.UnitMetadata:
+		return fmt.Sprintf("unit %s:%d %s %s %s=%s", f, l, rec.OrigUnit, rec.Unit, rec.Key, rec.Value)
+	case *benchfmt.SyntaxError:
+		return fmt.Sprintf("error %s:%d %s", f, l, rec.Msg)
+	}
+	return fmt.Sprintf("%T %s:%d", rec, f, l)
+}
+
+func frAbandonCheck(d0, d1 string) Verdict {
+	// number of records of the first input
+	r := benchfmt.NewReader(strings.NewReader(d0), "first")
+	n := 0
+	for r.Scan() {
+		n++
+	}
+	lines := strings.SplitAfter(d0, "\n")
+	for k := 0; k <= n; k++ {
+		a := benchfmt.NewReader(strings.NewReader(d0), "first")
+		last := 0
+		for i := 0; i < k && a.Scan(); i++ {
+			_, last = a.Result().Pos()
+		}
+		a.Reset(strings.NewReader(d1), "second")
+		var da []string
+		for a.Scan() {
+			da = append(da, frDumpRec(a.Result()))
+		}
+		if last > len(lines) {
+			last = len(lines)
+		}
+		b := benchfmt.NewReader(strings.NewReader(strings.Join(lines[:last], "")), "first")
+		for b.Scan() {
+		}
+		b.Reset(strings.NewReader(d1), "second")
+		var db []string
+		for b.Scan() {
+			db = append(db, frDumpRec(b.Result()))
+		}
+		if strings.Join(da, "\n") != strings.Join(db, "\n") {
+			return Verdict{OK: false, Signature: "reset-depends-on-records-fetched",
+				Detail: fmt.Sprintf("reader reset after fetching %d of %d records of the first input (through line %d) gives, for the second input,\n%s\nbut a reader that read lines 1-%d of the first input to the end gives\n%s", k, n, last, strings.Join(da, "\n"), last, strings.Join(db, "\n")),
+				Concrete: "--- first\n" + d0 + "\n--- second\n" + d1}
+		}
+	}
+	return pass()
 }
